@@ -31,6 +31,7 @@ MAGIC = {"gz": b"\x1f\x8b", "bz2": b"BZh", "lz4": b"\x04\x22\x4d\x18", "zst": b"
 CONTAINERS = {"stream": ("", ".records"), "avro": ("avro://", ".avro"), "jsonfile": ("jsonfile://", ".json"), "csvfile": ("csvfile://", ".csv")}
 NAMINGS = ["path", "neutral", "fileio", "buffered", "bytesio", "readonly", "stdin"]
 SEQS = ["empty", "one", "three", "many"]
+TIER = ["quick"]
 _n = [0]
 
 
@@ -67,7 +68,8 @@ def make_records(seq, container):
         return [A(0)]
     if seq == "three":
         return [A(0), (A if single else B)(1), A(2)]
-    return [(A if (single or i % 3) else B)(i) for i in range(300)]
+    n = 300 if seq == "many" else 5000
+    return [(A if (single or i % 3) else B)(i) for i in range(n)]
 
 
 def independent_decode(container, plain):
@@ -202,6 +204,24 @@ def run_cell(case):
         # (2) every way of naming the source
         namings = NAMINGS if container in ("stream", "avro") else ["path"]
         expected_obs = obs_list(records) if container == "stream" else None
+        if TIER[0] == "thorough" and container in ("stream", "avro"):
+            # a real process: rdump reading the bytes from a pipe on standard input and writing a stream to a file
+            import subprocess
+
+            outp = path + ".out.records"
+            p = subprocess.run([sys.executable, "-W", "ignore", "-m", "flow.record.tools.rdump", "-", "-w", outp], input=raw, capture_output=True,
+                               env=dict(os.environ), timeout=120)
+            try:
+                from flow.record import RecordReader as _RR
+
+                got = list(_RR(outp)) if os.path.exists(outp) else []
+                gi = [(r._desc.name, int(r.n)) for r in got]
+                if p.returncode not in (0, None) or gi != want:
+                    viol.append(("C11:read-differs:%s:subprocess-stdin-pipe" % label, case, {"rc": p.returncode, "got": len(gi), "want": len(want), "stderr": p.stderr[-200:].decode("utf-8", "replace")}))
+                outs.append("pipe:ok" if gi == want else "pipe:diff")
+            finally:
+                if os.path.exists(outp):
+                    os.unlink(outp)
         for naming in namings:
             got, exc, cls = read_named(container, naming, path, scheme if container != "stream" else "", raw)
             if exc is not None:
@@ -371,7 +391,7 @@ def run_interleaved(case):
 
 
 def cases(tier):
-    for codec, container, seq in itertools.product(CODECS, CONTAINERS, SEQS):
+    for codec, container, seq in itertools.product(CODECS, CONTAINERS, SEQS + (["huge"] if tier == "thorough" else [])):
         if container == "csvfile" and seq == "empty":
             continue  # a CSV file without a header row has no content to detect a dialect from: not a codec matter
         yield {"kind": "cell", "codec": codec, "container": container, "seq": seq}
@@ -382,6 +402,7 @@ def cases(tier):
 
 
 def main(tier, seed, workers=None):
+    TIER[0] = tier
     run = Run(PROP, "exploration", tier, seed, RULE)
     run.assumptions = ["Python's gzip/bz2 and the lz4/zstandard bindings called directly are the 'standard decompressors'",
                        "inputs that contain the stream magic inside their first 19 bytes are near-streams, not junk, except where listed"]
